@@ -78,6 +78,15 @@ CHECKS = {
             'Read triggers and the end marker are written directly by the harness and removed from the recording. '
             'delaybeforesend=None.',
             'DESIGN.md 3/C08'),
+    'C09': ('E3 real children with a constructed fate',
+            'Hypothesis-generated (fate, way of dying, observation history, transport) over real sh children whose exit '
+            'code / terminating signal is known by construction; invariant over the history; thorough adds the exhaustive '
+            'product of all 256 codes and 18 signals with 6 first observers',
+            'Every exit code and terminating signal, every first observer (isalive, wait, close, terminate, expect(EOF), '
+            'read) and generated repetitions; status attributes must equal the constructed fate, decode consistently and '
+            'never change afterwards. The child is left to become a zombie (seen in /proc, never reaped by us) before it is observed.',
+            'sh implements exit N / kill -S $$ faithfully; PIPE and XFSZ are inherited as ignored from Python and excluded.',
+            'DESIGN.md 3/C09'),
     'C11': ('E3 recording peers + recording log objects',
             'the C08 history runner with recording log files in all 8 combinations; transcript oracle (read log, send '
             'log, merged log in operation order, flush after every write, string type per mode); interact() sessions '
@@ -176,7 +185,7 @@ def main():
                                'interposed from the harness by replacing module attributes; virtual clock; peer actions '
                                'fired between reader syscalls; detection of waits that can never end'},
             {'name': 'E3', 'path': 'vf/engines/peers.py, vf/engines/dialogue.py, peers/rawpeer.py, peers/probe.py',
-             'serves_properties': ['C04', 'C05', 'C06', 'C07', 'C08', 'C11', 'C13'],
+             'serves_properties': ['C04', 'C05', 'C06', 'C07', 'C08', 'C09', 'C11', 'C13'],
              'kind_free_text': 'real peers: scripted pty/Popen children recording what they receive, pre-filled '
                                'pipes/socketpairs, recording log files'},
             {'name': 'E4', 'path': 'vf/engines/screenmodel.py', 'serves_properties': ['C19'],
